@@ -4,5 +4,4 @@ import "fqverif/fw"
 
 func c01Pad(r *fw.Run, p *fw.Program)    {}
 func c01Cursor(r *fw.Run, p *fw.Program) {}
-func c01Units(r *fw.Run, p *fw.Program)  {}
 func c01Lanes(r *fw.Run, p *fw.Program)  {}
